@@ -405,13 +405,13 @@ func H_C05_order_alias() {
 func H_C05_pipeline() {
 	n := verif.Choose("rows", maxRows(2, 3)+1)
 	where := verif.Choose("where", 2)
-	shape := verif.Choose("shape", 4)
+	shape := verif.Choose("shape", 5) // 4: aggregates over the whole (filtered) table
 	order := verif.Choose("order", 3)
 	window := verif.Choose("window", 2)
 	ordcol := 0
 	if order > 0 {
 		ordcol = verif.Choose("ordcol", 2) // sort by k, or by the second output column (v / the aggregate alias s)
-		if ordcol == 1 && shape == 1 {
+		if (ordcol == 1 && shape == 1) || shape == 4 {
 			verif.Assume(false)
 		}
 	}
@@ -419,13 +419,13 @@ func H_C05_pipeline() {
 	doc, rows := numTable(n, "k", "v")
 	c, h := verif.F64("c"), verif.F64("h")
 	lim, off := 0, 0
-	sql := []string{"SELECT k, v FROM t", "SELECT DISTINCT k FROM t", "SELECT k, SUM(v) AS s FROM t", "SELECT k, SUM(v) AS s FROM t"}[shape]
+	sql := []string{"SELECT k, v FROM t", "SELECT DISTINCT k FROM t", "SELECT k, SUM(v) AS s FROM t", "SELECT k, SUM(v) AS s FROM t", "SELECT COUNT(*) AS c, SUM(v) AS s FROM t"}[shape]
 	var holes []any
 	if where == 1 {
 		sql += " WHERE v > ?"
 		holes = append(holes, c)
 	}
-	if shape >= 2 {
+	if shape == 2 || shape == 3 {
 		sql += " GROUP BY k"
 	}
 	if shape == 3 {
@@ -480,6 +480,8 @@ func H_C05_pipeline() {
 				shaped = append(shaped, orow{f64of(r["k"]), Map{"k": r["k"]}})
 			}
 		}
+	case 4:
+		shaped = append(shaped, orow{0, Map{"c": len(kept), "s": refSum(kept, "v")}})
 	default:
 		for _, g := range refGroupBy(kept, "k") {
 			s := refSum(g.members, "v")
@@ -491,8 +493,10 @@ func H_C05_pipeline() {
 	}
 	if shape >= 2 {
 		for _, s := range shaped {
-			x := f64of(s.row["s"])
-			verif.Assume(x == x) // inf + -inf
+			if s.row["s"] != nil {
+				x := f64of(s.row["s"])
+				verif.Assume(x == x) // inf + -inf
+			}
 		}
 	}
 	if ordcol == 1 {
